@@ -120,16 +120,31 @@ PROPS = {
                  'T8 the caller holds the write lock on the inode map (forget_one takes &mut InodeStore)'],
     ),
     'C04': dict(
-        vx_units=['iobuffers', 'fusedevw'], kx=['file_buf'],
-        design_ref='DESIGN.md section 5, C04',
+        vx_units=['iobuffers', 'fusedevw', 'virtiofsw'], kx=['file_buf'],
+        design_ref='DESIGN.md A.4',
         not_covered=[
-            'IoBuffers::{available_bytes, split_at, allocate_file_volatile_slice, mark_dirty} (iterator fold / position with a mutating closure, VecDeque iteration): allocate_file_volatile_slice is an ASSUMED contract of consume',
-            'Reader::{read, read_obj, read_to*} and VirtioFsWriter::{write, write_from_at, split_at, commit}: copy_nonoverlapping / MaybeUninit / raw pointers (unsafe), descriptor chain -> slices',
+            'IoBuffers::available_bytes (iterator fold): assumed contract (returns the number of addresses still covered when that fits in usize)',
+            'Reader::{read, read_obj} (closure captures &mut buf, MaybeUninit), VirtioFsWriter::{write_vectored, write_obj, new}, Reader::from_descriptor_chain (descriptor chain -> slices), the Writer enum dispatch',
             'FuseDevWriter::{split_at, account_written, write, write_vectored, write_from*}: unsafe from_raw_parts / set_len or closures capturing &mut self / iterator adapters in the same function',
             'file-buffer adapters (FileVolatileSlice) as plain views: KX harnesses (see units kx:file_buf when listed), lengths up to the stated bound only',
         ],
-        trusted=['T3 vm_memory::VolatileSlice as (address, length) with offset() as documented, ranges do not wrap the address space; VecDeque via vstd',
-                 'T5 nix write/writev as opaque device writes guarded by a capability'],
+        trusted=['T3 vm_memory::VolatileSlice as (address, length) with offset() / subslice() as documented, ranges do not wrap the address space; VecDeque via vstd',
+                 'T5 nix write/writev as opaque device writes guarded by a capability',
+                 'rules R21 (for x in &E -> E.iter()) and R22 (Iterator::position written as the loop it stands for); ABSTRACT of copy_nonoverlapping by a model call'],
+    ),
+    'C17': dict(
+        vx_units=['iobuffers', 'virtiofsw'], kx=[],
+        design_ref='DESIGN.md A.4',
+        not_covered=[
+            'VirtioFsWriter::write_vectored and write_obj (fold / std write_all; they only call write); the Writer enum dispatch',
+            'VirtioFsWriter::new and Reader::from_descriptor_chain (descriptor chain -> slices; the source of the chain-length invariant bytes_consumed + available <= usize::MAX, a hypothesis of the err_unmarked clauses)',
+            'async_write_from_at (feature async-io is off in the extraction configuration)',
+            'the counter-overflow error path of mark_used after marking; Reader::read and read_obj (closure captures &mut, MaybeUninit)',
+            'page granularity of the real bitmap (the model is byte granular; pages are the monotone image of bytes); concurrency',
+        ],
+        trusted=['T3\' vm-memory VolatileSlice/Bitmap model: address, length, offset, subslice, bitmap().base == addr, mark_dirty adds [base+off, +len) and nothing for len 0',
+                 'FileReadWriteVolatile::{read,write}_vectored(_at)_volatile fill exactly the reported prefix of the offered bytes and nothing on error (readv/preadv semantics)',
+                 'rule R23: the ghost dirty-log parameter threaded through the real functions is erased by Verus (no run-time meaning); ABSTRACT of copy_nonoverlapping by vx_copy_to_guest'],
     ),
     'C13': dict(
         vx_units=[], kx=['abi'],
